@@ -308,3 +308,33 @@ def shared_field_objects(rep, rule, ci, allowed=(), what='state'):
                    'store, a kernel that fills a buffer, a mutating method) silently changes the other piece of %s' % (key, sorted(fs), what),
                    line=fields[-1][1])
     return n
+
+
+class RuleAlias:
+    """A reporter that files obligations of one rule id under another: lets a property run a neighbour's rule function (whose rule id is
+    fixed) as a clause of its own.  Everything else is the wrapped reporter."""
+
+    def __init__(self, rep, mapping):
+        object.__setattr__(self, '_rep', rep)
+        object.__setattr__(self, '_map', dict(mapping))
+
+    def __getattr__(self, name):
+        return getattr(self._rep, name)
+
+    def __setattr__(self, name, value):
+        setattr(self._rep, name, value)
+
+    def _r(self, rule):
+        return self._map.get(rule, rule)
+
+    def ob(self, rule, *a, **k):
+        return self._rep.ob(self._r(rule), *a, **k)
+
+    def rule(self, rid, text):
+        return self._rep.rule(self._r(rid), text)
+
+    def floor(self, rule, *a, **k):
+        return self._rep.floor(self._r(rule), *a, **k)
+
+    def unresolved_item(self, rule, *a, **k):
+        return self._rep.unresolved_item(self._r(rule), *a, **k)
